@@ -1036,6 +1036,7 @@ impl Engine {
         let mut frontier = vec![init];
         let maxd = bounds.max_depth();
         let t0 = std::time::Instant::now();
+        let cpu0 = cpu_secs();
         let mut capped = false;
         for depth in 0..maxd {
             let mut next: Vec<State> = Vec::new();
@@ -1069,7 +1070,7 @@ impl Engine {
                         }
                     }
                 }
-                if visited.len() as u64 > max_states || t0.elapsed().as_secs() > a_time_cap(a) {
+                if visited.len() as u64 > max_states || cpu_secs().saturating_sub(cpu0) > a_time_cap(a) {
                     capped = true;
                     let msg = format!("cap hit at depth {} after {} of {} frontier states ({} states, {} s)", depth + 1, si + 1, frontier.len(), visited.len(), t0.elapsed().as_secs());
                     for p in PROPS {
@@ -1114,8 +1115,14 @@ impl Engine {
     }
 }
 
+/// engine cap in seconds of *CPU time of this process* (not wall time: a loaded machine must not cut the search short)
 fn a_time_cap(a: &Args) -> u64 {
-    if a.thorough() { 1500 } else { 45 }
+    if a.thorough() { 2400 } else { 150 }
+}
+fn cpu_secs() -> u64 {
+    let mut ts = libc::timespec { tv_sec: 0, tv_nsec: 0 };
+    unsafe { libc::clock_gettime(libc::CLOCK_PROCESS_CPUTIME_ID, &mut ts) };
+    ts.tv_sec as u64
 }
 
 fn diff_desc(t: &Tree, r1: &R1) -> String {
